@@ -40,12 +40,14 @@ type World struct {
 	vta      *callgraph.Graph
 	Whole    bool // LoadAllSyntax: dependency bodies are available
 
-	globals      map[*ssa.Global]*GlobalInfo
-	effects      map[*ssa.Function]*Effects
-	effectRounds int
-	errRes       *errResolver
-	addrTaken    map[*ssa.Function]bool
-	baseMem      map[string]AV
+	globals       map[*ssa.Global]*GlobalInfo
+	effects       map[*ssa.Function]*Effects
+	effectRounds  int
+	errRes        *errResolver
+	addrTaken     map[*ssa.Function]bool
+	fieldFuncs    map[string]map[*ssa.Function]bool
+	fieldFuncsBad map[string]bool
+	baseMem       map[string]AV
 }
 
 func readModPath(dir string) (string, error) {
@@ -77,7 +79,10 @@ func Load(dir, tier string, whole bool) (*World, error) {
 	}
 	env := append(os.Environ(), "GOFLAGS=-mod=mod", "GOPROXY=off", "GOSUMDB=off", "GOWORK=off", "GOTOOLCHAIN=local")
 	cfg := &packages.Config{Mode: mode, Dir: dir, Env: env}
-	pkgs, err := packages.Load(cfg, "./...")
+	// "slices" is loaded with its sources as well: its generic helpers
+	// (IndexFunc, ContainsFunc, …) take callbacks from this repository, and
+	// their instantiations are analysed like in-repo code where no model exists
+	pkgs, err := packages.Load(cfg, "./...", "slices")
 	if err != nil {
 		return nil, fmt.Errorf("packages.Load: %w", err)
 	}
@@ -148,6 +153,25 @@ func fnPkg(fn *ssa.Function) *ssa.Package {
 		return fnPkg(fn.Parent())
 	}
 	return nil
+}
+
+// Inlinable: in-repo code, or an instantiation of a generic helper of the
+// standard slices package (loaded with sources) for which no model exists.
+func (w *World) Inlinable(fn *ssa.Function) bool {
+	if w.InRepo(fn) {
+		return true
+	}
+	if fn.Blocks == nil {
+		return false
+	}
+	p := fnPkg(fn)
+	if p == nil || p.Pkg == nil || p.Pkg.Path() != "slices" {
+		return false
+	}
+	if _, has := lookupModel(fn.String()); has {
+		return false
+	}
+	return true
 }
 
 func (w *World) InRepoPath(path string) bool {
@@ -311,6 +335,12 @@ func (w *World) refineTableCalls(g *callgraph.Graph) {
 					allowed[e.Site] = fs
 				}
 			}
+			// a call through an unexported function-typed field of an in-repo
+			// struct type: the callees are the functions the package stores
+			// into that field
+			if fs := w.fieldCallFuncs(c.Value); fs != nil {
+				allowed[e.Site] = fs
+			}
 			// a call through a function-typed parameter of an unexported
 			// function whose address is never taken: the callees are the
 			// functions its (static) callers pass
@@ -403,6 +433,104 @@ func (w *World) paramFuncs(g *callgraph.Graph, fn *ssa.Function, prm *ssa.Parame
 		}
 	}
 	return out
+}
+
+// fieldCallFuncs: v is the value of an unexported function-typed field of a
+// named in-repo struct type (only this repository's packages can write it).
+// Returns the functions stored into that field anywhere in the repository;
+// nil when v is not such a field or something other than a function constant,
+// a closure or nil is stored into it.
+func (w *World) fieldCallFuncs(v ssa.Value) map[*ssa.Function]bool {
+	var st types.Type
+	idx := -1
+	switch x := v.(type) {
+	case *ssa.Field:
+		st, idx = x.X.Type(), x.Field
+	case *ssa.UnOp:
+		if fa, ok := x.X.(*ssa.FieldAddr); ok && x.Op == token.MUL {
+			st, idx = fa.X.Type().Underlying().(*types.Pointer).Elem(), fa.Field
+		}
+	}
+	if idx < 0 {
+		return nil
+	}
+	// a named struct type of this repository, or an anonymous struct type:
+	// with an unexported field it belongs to the package that wrote it down
+	str, ok := st.Underlying().(*types.Struct)
+	if !ok || idx >= str.NumFields() || str.Field(idx).Exported() {
+		return nil
+	}
+	if fp := str.Field(idx).Pkg(); fp == nil || !w.InRepoPath(fp.Path()) {
+		return nil
+	}
+	key := fmt.Sprintf("%s.%d", st.String(), idx)
+	if w.fieldFuncs == nil {
+		w.fieldFuncs = map[string]map[*ssa.Function]bool{}
+		w.fieldFuncsBad = map[string]bool{}
+		for fn := range w.AllFuncs {
+			if !w.InRepo(fn) {
+				continue
+			}
+			for _, b := range fn.Blocks {
+				for _, in := range b.Instrs {
+					if ct, ok := in.(*ssa.ChangeType); ok {
+						// a struct converted from another struct type brings fields
+						// written under the other type's name: give up on this type
+						if n, ok := ct.Type().(*types.Named); ok {
+							if str, ok := n.Underlying().(*types.Struct); ok {
+								for i := 0; i < str.NumFields(); i++ {
+									w.fieldFuncsBad[fmt.Sprintf("%s.%d", n.String(), i)] = true
+								}
+							}
+						}
+						continue
+					}
+					sto, ok := in.(*ssa.Store)
+					if !ok {
+						continue
+					}
+					fa, ok := sto.Addr.(*ssa.FieldAddr)
+					if !ok {
+						continue
+					}
+					if _, isSig := sto.Val.Type().Underlying().(*types.Signature); !isSig {
+						continue
+					}
+					k := fmt.Sprintf("%s.%d", fa.X.Type().Underlying().(*types.Pointer).Elem().String(), fa.Field)
+					val := sto.Val
+					if ct, ok := val.(*ssa.ChangeType); ok {
+						val = ct.X
+					}
+					switch f := val.(type) {
+					case *ssa.Function:
+						if w.fieldFuncs[k] == nil {
+							w.fieldFuncs[k] = map[*ssa.Function]bool{}
+						}
+						w.fieldFuncs[k][f] = true
+					case *ssa.MakeClosure:
+						if g, ok := f.Fn.(*ssa.Function); ok {
+							if w.fieldFuncs[k] == nil {
+								w.fieldFuncs[k] = map[*ssa.Function]bool{}
+							}
+							w.fieldFuncs[k][g] = true
+						} else {
+							w.fieldFuncsBad[k] = true
+						}
+					case *ssa.Const:
+						if !f.IsNil() {
+							w.fieldFuncsBad[k] = true
+						}
+					default:
+						w.fieldFuncsBad[k] = true
+					}
+				}
+			}
+		}
+	}
+	if w.fieldFuncsBad[key] {
+		return nil
+	}
+	return w.fieldFuncs[key]
 }
 
 // addressTaken: functions used as values (stored, passed, returned, bound in a
